@@ -2,12 +2,17 @@
 
 Under contract (pointwise, one direction = arrays of shape 1x1): the head and tail
 slices of Mininec.compute_far_field (ff_dist / ff_power / rd / k9, and everything from
-`p123 = ...` to the end) and Far_Field_Pattern.__init__.  Undecided: the radiation
-integral itself, 360-degree periodicity, zenith independence (vectorised image loop).
+`p123 = ...` to the end) and Far_Field_Pattern.__init__.
+Clause "radiation sum of the pulse currents plus images" (free space / ideal ground): the middle of
+compute_far_field (direction vectors, image loop, projection on theta^/phi^) run on arrays of
+1 zenith x 2 azimuths x 2 pulses with symbolic values against the sum written from the property
+(unit compute_far_field-radiation-sum; shape-bounded, values unbounded).
+Undecided: agreement with the exact integral over straight half-segments (2 % clause), 360-degree
+periodicity and zenith independence (properties of cos/sin, which are uninterpreted here).
 """
 import ast
 import z3
-from pyvc.engine import SObj, NDArr, PyRaise, EngineError
+from pyvc.engine import SObj, SList, NDArr, PyRaise, EngineError
 from pyvc.values import *      # noqa
 from pyvc.runner import Unit, Canary
 from pyvc.source import find_stmt
@@ -178,4 +183,170 @@ U_TAIL = Unit(P + '/compute_far_field-tail', [Q, 'Far_Field_Pattern.__init__'], 
                         Canary('power-ratio-inverted', Q, _PffSwap, [P + '/compute_far_field[tail slice]/E('])])
 U_SCALE = Unit(P + '/lemma-scaling', [], t_scaling, SCH, kind='lemma')
 
-UNITS = [U_TAIL, U_SCALE]
+
+
+# ---------------------------------------------------------------- the radiation sum (free space / ideal ground)
+NP_, NA_, NZ_ = 2, 2, 1        # pulses, azimuths, zenith angles of the shape-bounded run
+
+
+def sym_nd(shape, base):
+    cnt = [0]
+
+    def mk(k):
+        if k == len(shape):
+            cnt[0] += 1
+            return fresh_real('%s%d' % (base, cnt[0]))
+        return [mk(k + 1) for _ in range(shape[k])]
+    return NDArr(mk(0))
+
+
+def radiation_slice(eng):
+    """the contiguous top-level statements of compute_far_field from `pv = ...` through `x34 = ...`"""
+    f = eng.get_fnode(Q)
+    tgt = [ast.unparse(st.targets[0]) if isinstance(st, ast.Assign) else None for st in f.body]
+    if 'pv' not in tgt or 'x34' not in tgt or tgt.index('pv') > tgt.index('x34'):
+        from pyvc.source import Unresolved
+        raise Unresolved('radiation slice of compute_far_field (pv .. x34)')
+    out = f.body[tgt.index('pv'):tgt.index('x34') + 1]
+    loops = [st for st in out if isinstance(st, ast.For) and 'image_iter' in ast.unparse(st.iter)]
+    if len(loops) != 1:
+        from pyvc.source import Unresolved
+        raise Unresolved('the loop over image_iter() inside the radiation slice')
+    return f, out
+
+
+def t_radiation(eng):
+    """Slice of compute_far_field: pv, f3, the direction vectors, the image loop, h12, x34 -- on arrays of 1 zenith x 2
+    azimuths x 2 pulses with symbolic values, free space or ideal ground, pulse 1 ungrounded / grounded at end 1 / at
+    end 2 (a grounded pulse lies on the plane: z = 0).
+    Contract, from the property: the Cartesian sum is  G = sum over the existing half-segments (p, h) of
+        I_p * sign_ph * w * len_ph / 2 * dir_ph * exp(j w r^.point_p)
+    plus, over ground, the same sum for the mirror image (x, y components reversed, z kept; point mirrored in z); the
+    reported components are  E_theta = -j g0 G.theta^,  E_phi = -j g0 G.phi^  for every requested direction, with
+    r^ = (sin t cos p, sin t sin p, cos t), theta^ = (cos t cos p, cos t sin p, -sin t), phi^ = (-sin p, cos p, 0)."""
+    n = P + '/compute_far_field[radiation sum]/'
+    f, stmts = radiation_slice(eng)
+    ground = eng.choose(2) == 1
+    gcase = eng.choose(3) if ground else 0         # pulse 0: 0 = no grounded end, 1 = end 1 grounded, 2 = end 2 grounded
+    m = SObj('Mininec', label='m')
+    w = fresh_real('w')
+    g0 = fresh_real('g0')
+    m.fields['w'] = w
+    m.fields['g0'] = g0
+    if ground:
+        med = SObj('Medium', label='ideal')
+        med.fields['is_ideal'] = True
+        m.fields['media'] = SList([('conc', [med])])
+    else:
+        m.fields['media'] = None
+    pv = SObj('Pulse_Container', label='pulses')
+    m.fields['pulses'] = pv
+    point = sym_nd((NP_, 3), 'pt')
+    gr = [[gcase == 1, gcase == 2], [False, False]]
+    if gcase:
+        point.data[0][2] = 0
+    sign = sym_nd((NP_, 2), 'sg')
+    seg_len = sym_nd((NP_, 2), 'sl')
+    dirvec = sym_nd((NP_, 2, 3), 'dv')
+    cur = NDArr([fresh_cx('I%d' % k) for k in range(NP_)])
+    pv.fields.update({'point': point, 'sign': sign, 'seg_len': seg_len, 'dirvec': dirvec,
+                      'ground': NDArr(gr), 'inv_ground': NDArr([[r[1], r[0]] for r in gr])})
+    m.fields['current'] = cur
+    eng.summaries['Pulse_Container.__len__'] = lambda e, a, k: NP_
+    eng.summaries['Mininec.image_iter'] = lambda e, a, k: SList([('conc', [1, -1] if ground else [1])])
+    phi = [fresh_real('phi%d' % k) for k in range(NA_)]
+    theta = [fresh_real('theta%d' % k) for k in range(NZ_)]
+    azi = SObj('Angle', label='azi')
+    zen = SObj('Angle', label='zen')
+    eng.summaries['Angle.angle_rad'] = lambda e, a, k: NDArr(list(phi)) if a[0] is azi else NDArr(list(theta))
+    deg = {id(azi): NDArr([fresh_real('phi_deg%d' % k) for k in range(NA_)]), id(zen): NDArr([fresh_real('theta_deg%d' % k) for k in range(NZ_)])}
+    eng.summaries['Angle.angle_deg'] = lambda e, a, k: deg[id(a[0])]
+    pw = fresh_real('power')
+    eng.assume(r_cmp('>', pw, 0))
+    m.fields['power'] = pw
+    env = {'self': m, 'azimuth_angle': azi, 'zenith_angle': zen}
+    eng.frames.append({'fref': eng.fref(Q), 'env': env, 'qual': Q, 'node': f})
+    try:
+        eng.exec_block(stmts, env)
+    finally:
+        eng.frames.pop()
+    eng.cover('radiation-ground%d-case%d' % (ground, gcase))
+    h12, x34 = env['h12'], env['x34']
+    ok = isinstance(h12, NDArr) and isinstance(x34, NDArr) and h12.shape == (NZ_, NA_) and x34.shape == (NZ_, NA_)
+    eng.oblige(n + 'one-value-per-requested-direction', ok, detail=str((getattr(h12, 'shape', None), getattr(x34, 'shape', None))))
+    if not ok:
+        return
+    mj_g0 = CX(0, r_neg(g0))
+    for zi in range(NZ_):
+        for ai in range(NA_):
+            ca, msa = B.trig(eng, r_neg(phi[ai]))       # acs = cos(-phi) + j sin(-phi), as the code forms it
+            cz, msz = B.trig(eng, r_neg(theta[zi]))
+            sa, sz = r_neg(msa), r_neg(msz)
+            rhat = [r_mul(sz, ca), r_mul(sz, sa), cz]
+            that = [r_mul(cz, ca), r_mul(cz, sa), r_neg(sz)]
+            phat = [r_neg(sa), ca, 0]
+            G = [CX(0, 0)] * 3
+            for img in ((1, -1) if ground else (1,)):
+                for p in range(NP_):
+                    pt = [point.data[p][0], point.data[p][1], r_mul(img, point.data[p][2])]
+                    arg = r_mul(w, r_add(r_add(r_mul(pt[0], rhat[0]), r_mul(pt[1], rhat[1])), r_mul(pt[2], rhat[2])))
+                    ph = B.cexp(eng, CX(0, arg))
+                    for h in range(2):
+                        if gr[p][h]:
+                            continue            # this half would lie below the plane: it does not exist
+                        mom = r_div(r_mul(r_mul(sign.data[p][h], w), seg_len.data[p][h]), 2)
+                        for c in range(3):
+                            comp = r_mul(dirvec.data[p][h][c], (img if c < 2 else 1))
+                            G[c] = c_add(G[c], c_mul(c_mul(to_cx(r_mul(mom, comp)), ph), cur.data[p]))
+            et = c_mul(mj_g0, c_add(c_add(c_mul(G[0], to_cx(that[0])), c_mul(G[1], to_cx(that[1]))), c_mul(G[2], to_cx(that[2]))))
+            ep = c_mul(mj_g0, c_add(c_mul(G[0], to_cx(phat[0])), c_mul(G[1], to_cx(phat[1]))))
+            eng.oblige(n + 'E(theta)-is-the-radiation-sum-of-halves-and-images-projected-on-theta^',
+                       c_eq(to_cx(h12.data[zi][ai]), et))
+            eng.oblige(n + 'E(phi)-is-the-radiation-sum-of-halves-and-images-projected-on-phi^',
+                       c_eq(to_cx(x34.data[zi][ai]), ep))
+
+
+class _ImageKeepsXY(ast.NodeTransformer):
+    def visit_Assign(self, node):
+        if ast.unparse(node.targets[0]) == 'kvec2':
+            node.value = ast.parse('np.array ([1, 1, k])').body[0].value
+        return node
+
+
+class _FirstAzimuthOnly(ast.NodeTransformer):
+    def visit_Call(self, node):
+        self.generic_visit(node)
+        if ast.unparse(node.func) == 'np.repeat' and 'rvec' in ast.unparse(node.args[0]):
+            node.args[0] = ast.parse('rvec [:, 0, :]').body[0].value
+        return node
+
+
+class _GroundedHalfNotDoubled(ast.NodeTransformer):
+    def visit_Constant(self, node):
+        return node
+
+    def visit_Assign(self, node):
+        if ast.unparse(node.targets[0]).replace(' ', '') == 'kv2g[pv.inv_ground]' and '2' in ast.unparse(node.value):
+            node.value = ast.parse('np.array ([0, 0, 1])').body[0].value
+        return node
+
+
+class _PhiHatSwapped(ast.NodeTransformer):
+    def visit_Assign(self, node):
+        if ast.unparse(node.targets[0]) == 'vv':
+            node.value = ast.parse('np.array ([acs_m.real, acs_m.imag]).T').body[0].value
+        return node
+
+
+U_RAD = Unit(P + '/compute_far_field-radiation-sum', [Q], t_radiation, SCH,
+             slices={Q: 'the contiguous top-level statements from `pv = ...` through `x34 = ...` (direction vectors, the loop over '
+                        'image_iter(), projections); dropped: the statements before (ff_dist, ff_power, media tables, rd), '
+                        'the real-ground branch is not entered '
+                        '(free space / ideal ground only), the dBi/V-per-m tail (unit compute_far_field-tail)'},
+             notes='bounded(shape): 1 zenith x 2 azimuths x 2 pulses; all values symbolic; grounded pulse assumed on the plane (z = 0)',
+             canaries=[Canary('image-keeps-horizontal-components', Q, _ImageKeepsXY, [P + '/compute_far_field[radiation sum]/E(']),
+                       Canary('every-azimuth-uses-the-first-direction', Q, _FirstAzimuthOnly, [P + '/compute_far_field[radiation sum]/E(']),
+                       Canary('grounded-half-not-doubled', Q, _GroundedHalfNotDoubled, [P + '/compute_far_field[radiation sum]/E(']),
+                       Canary('phi-unit-vector-swapped', Q, _PhiHatSwapped, [P + '/compute_far_field[radiation sum]/E(phi)'])])
+
+UNITS = [U_TAIL, U_SCALE, U_RAD]
